@@ -354,8 +354,22 @@ def run_case(case):
         # values are ints; anything else (Undefined, None ...) is reported as a sentinel
         return v if type(v) is int else -99999
 
+    ARM = {}        # {"pending": v2} while a SetArm step is running; {"mid": ...} once the clamp listener has fired
+
     def make_listener(style):
         seen = []
+        if style == "clamp":
+            # a listener of the property that changes ANOTHER dependency from inside the property's own
+            # notification (re-entrant history): once per SetArm step it assigns root.other
+            def fn(event):
+                seen.append([None if event.old is Undefined else canon(event.old), canon(event.new)])
+                if "pending" in ARM:
+                    v2 = ARM.pop("pending")
+                    _, view_ = snapshot_view(pool[0], vname, idx_of())
+                    ARM["mid"] = {"oracle": canon(fn_oracle(pool[0])), "view": view_, "getter": gcount(),
+                                  "delivered": dcount(), "cache": cache_slot(), "nevents": len(seen)}
+                    pool[0].other = v2
+            return ["observe", fn, seen]
         if style == "observe":
             def fn(event):
                 seen.append([None if event.old is Undefined else canon(event.old), canon(event.new)])
@@ -394,12 +408,23 @@ def run_case(case):
 
     matched, view0 = snapshot_view(pool[0], vname, idx_of())
     out = {"init_view": view0, "init_oracle": fn(pool[0]), "hist": []}
-    for op in case["ops"]:
+    fn_oracle = fn
+    nested_obs = None
+    for opi, op in enumerate(case["ops"]):
         for l_ in listeners:
             del l_[2][:]
         g0, d0 = gcount(), dcount()
         k = op[0]
         val, touched, err = None, None, None
+        if k == "Nested":
+            # the second half of the preceding SetArm step: what the clamp listener's own assignment did
+            if nested_obs is None:
+                _, view = snapshot_view(pool[0], vname, idx_of())
+                nested_obs = {"val": None, "oracle": canon(fn(pool[0])), "view": view, "getter": 0, "events": [],
+                              "delivered": 0, "cache": cache_slot(), "touched": False, "err": None}
+            out["hist"].append(nested_obs)
+            nested_obs = None
+            continue
         try:
             if k == "Read":
                 val = canon(getattr(pool[0], attr))
@@ -446,7 +471,16 @@ def run_case(case):
                 # a mutation: ["Set", i, trait, v] / list, dict, set operations
                 o = pool[op[1]]
                 matched, _ = snapshot_view(pool[0], vname, idx_of())
-                if k == "Redeclare":
+                if k == "SetArm":
+                    # root.value = v with the clamp listener armed (only if the next step is its "Nested" half)
+                    touched = ("t", id(o), "value") in matched
+                    if opi + 1 < len(case["ops"]) and case["ops"][opi + 1][0] == "Nested":
+                        ARM["pending"] = op[3]
+                    try:
+                        o.value = op[2]
+                    finally:
+                        ARM.pop("pending", None)
+                elif k == "Redeclare":
                     # the dependency trait is declared again on this instance (add_trait of an existing name keeps
                     # the notifiers of the old trait): nothing changes, nothing may be lost
                     touched = ("t", id(o), op[2]) in matched
@@ -513,6 +547,16 @@ def run_case(case):
         except Exception as e:  # noqa
             view, oracle = [-1], -88888
             err = err or ("oracle:" + type(e).__name__)
+        mid = ARM.pop("mid", None)
+        if mid is not None:
+            ev_ = events_seen()
+            nested_obs = {"val": None, "oracle": oracle, "view": view, "getter": gcount() - mid["getter"],
+                          "events": ev_[mid["nevents"]:], "delivered": dcount() - mid["delivered"],
+                          "cache": cache_slot(), "touched": True, "err": err}
+            out["hist"].append({"val": None, "oracle": mid["oracle"], "view": mid["view"], "getter": mid["getter"] - g0,
+                                "events": ev_[:mid["nevents"]], "delivered": mid["delivered"] - d0,
+                                "cache": mid["cache"], "touched": touched, "err": None})
+            continue
         out["hist"].append({"val": val, "oracle": oracle, "view": view, "getter": gcount() - g0,
                             "events": events_seen(), "delivered": dcount() - d0,
                             "cache": cache_slot(), "touched": touched, "err": err})
